@@ -200,6 +200,7 @@ def run(ctx):
     reals = SC.run_scripts(ctx, "session", scripts)
     for s, r in zip(scripts, reals):
         oracle(ctx, s, r)
+        W.refused_leaves_no_trace(ctx, s, r, "c14")
     # the message parser on arbitrary octets: only ValueError (compared with the model too)
     cases = []
     for _ in range(1500 if ctx.tier == "quick" else 100000):
